@@ -195,7 +195,10 @@ def one_history(acc, seed, tag, kits):
             rec = pending[r.choice(sorted(pending))]
             c = r.random()
             if c < 0.4:
-                st = ("iq", {"id": rec["id"], "type": "get", "xmlns": "urn:xmpp:ping", "from": S}, [], None)
+                # (an iq that is no reply: a request of the server's, or one whose type is missing / not one the protocol knows)
+                ty = r.choice(["get", "get", "set", None, "probe"])
+                st = ("iq", dict({"id": rec["id"], "xmlns": "urn:xmpp:ping", "from": S}, **({"type": ty} if ty else {})), [], None)
+                acc.count("non_reply_iq_type:%s" % ty)
             elif c < 0.7:
                 st = ("ack", {"id": rec["id"], "class": "receipt", "from": gen.jid(r), "t": "1600000000"}, [], None)
             else:
@@ -341,7 +344,9 @@ def internal_requests(acc, seed, tag):
             kit.inject(("iq", {"id": "unk-" + sets[0][1]["id"], "type": "result", "from": S}, [], None))
             want_unsent = unsent_before
         elif v2 == "non-reply":
-            kit.inject(("iq", {"id": sets[0][1]["id"], "type": "get", "xmlns": "urn:xmpp:ping", "from": S}, [], None))
+            ty = r.choice(["get", "set", None, "probe"])
+            acc.count("keyupload_non_reply_type:%s" % ty)
+            kit.inject(("iq", dict({"id": sets[0][1]["id"], "xmlns": "urn:xmpp:ping", "from": S}, **({"type": ty} if ty else {})), [], None))
             want_unsent = None
         else:
             kit.inject(("iq", {"id": sets[0][1]["id"], "type": "result", "from": S}, [], None))
